@@ -232,7 +232,13 @@ func (ev *astEnv) eval(x ast.Expr) Value {
 		return ev.eval(n.X)
 	case *ast.Ident:
 		if n.Name == "nil" {
-			return e.zeroVal(ev.typeOf(x))
+			if tv, ok := ev.info.Types[x]; ok && tv.IsNil() {
+				if isUntyped(tv.Type) {
+					return nil
+				}
+				return e.zeroVal(tv.Type)
+			}
+			return nil
 		}
 		if n.Name == "true" {
 			return True
@@ -656,6 +662,22 @@ func (ev *astEnv) call(n *ast.CallExpr) Value {
 		ret, ok := fl.Body.List[0].(*ast.ReturnStmt)
 		if !ok || len(fl.Body.List) != 1 {
 			panic(unsupported("quantifier body must be a single return"))
+		}
+		if lo.Const && hi.Const && sext(hi.C, 64)-sext(lo.C, 64) <= 64 {
+			// small constant range: expand
+			var parts []*Term
+			for k := sext(lo.C, 64); k < sext(hi.C, 64); k++ {
+				sub := &astEnv{e: e, s: ev.s, f: ev.f, vars: ev.vars, info: ev.info, old: ev.old, results: ev.results, bound: map[types.Object]Value{}}
+				for bk, bv := range ev.bound {
+					sub.bound[bk] = bv
+				}
+				sub.bound[kobj] = BVConst(uint64(k), 64)
+				parts = append(parts, sub.eval(ret.Results[0]).(*Term))
+			}
+			if fobj.Name() == "verif_forall" {
+				return c.And(parts...)
+			}
+			return c.Or(parts...)
 		}
 		snap := e.snapshot(ev.s)
 		// carry over quantifier lists so nested quantifiers get registered on the live state
